@@ -2,8 +2,8 @@ SPECIFICATION Spec
 CONSTANTS
   MaxIn = 3
   MaxVal = 1
-  MaxOut = 5
-  OffR = 5
+  MaxOut = 4
+  OffR = 4
   Z3Idx = {2, 5}
 INVARIANTS InvWhole InvMiddle InvSum InvCom InvComTight InvUniform InvShift InvRelabel InvSeparable InvSum3
 CHECK_DEADLOCK FALSE
